@@ -240,7 +240,13 @@ class Env:
             if fn in self.helpers:
                 return self.helpers[fn](self, [a for a in e[2]], e)
             if fn in ("T::coerce", "T::coerce_from"):
-                return self.ev(e[2][0])
+                v = self.ev(e[2][0])
+                if v.ty in ("f64", "f32") and v.t is not None and not z3.is_rational_value(v.t):
+                    # C17 (numerical half): a value that goes through the sample type loses |x| * eps(T); positions (which grow with
+                    # the chunk size) must be reduced to a bounded offset in f64 *before* they are converted
+                    self.side.append(("C17 a value converted to the sample type is a bounded offset, |x| <= 4, not a position: `%s`" % rp.show(e[2][0]),
+                                      z3.And(v.t <= 4, v.t >= -4), list(self.path), getattr(self, "cur_line", 0)))
+                return v
             res = getattr(self, "resolve_fn", None)
             if res is not None:
                 got = res(fn)
